@@ -100,9 +100,7 @@ func (i *Int) Init64(v int64, m *compatiblemod.Mod) *Int {
 	i.M = m
 	i.BO = kyber.BigEndian
 	if v < 0 {
-		i.V = *compatible.FromNat(i.M.Nat())
-		negated := compatible.NewInt(-v)
-		i.V = *compatible.NewInt(0).Sub(&i.V, negated, i.M)
+		i.SetInt64(v)
 	} else {
 		i.V = *compatible.NewInt(0).SetUint(uint(v))
 		i.V = *compatible.NewInt(0).Mod(&i.V, m)
@@ -190,7 +188,9 @@ func (i *Int) One() kyber.Scalar {
 // The modulus must already be initialized.
 func (i *Int) SetInt64(v int64) kyber.Scalar {
 	if v < 0 {
-		panic("negative value")
+		// |v| as a uint64 without overflowing on math.MinInt64, reduced, then negated.
+		i.V = *compatible.NewInt(0).Mod(compatible.NewUint(uint64(-(v+1))+1), i.M)
+		return i.Neg(i)
 	}
 	i.V = *compatible.NewInt(0).Mod(compatible.NewInt(v), i.M)
 
